@@ -1714,6 +1714,8 @@ DEFAULT_MODELS = {
     np.maximum: m_np_maximum,
     np.minimum: m_np_minimum,
     "ndarray.setflags": m_ndarray_setflags,
+    "ndarray.astype": lambda interp, arr, t, *a, **k: (np.frompyfunc(lambda v: MODELS_astype(interp, v, t) if isinstance(v, Sym) else v, 1, 1)(arr)
+                                                        if (arr.dtype == object and contains_sym(arr)) else arr.astype(t, *a, **k)),
 }
 
 
